@@ -2,6 +2,7 @@ import ScVerif.Base.Line
 import ScVerif.C10.Bus
 import ScVerif.C10.DrvSys
 import ScVerif.C10.DrvLate
+import ScVerif.C10.DrvWindow
 /-!
 Driver handler for C10: an *acceptor* over the bus model (K4 tie) and the pipeline model.
 
@@ -190,6 +191,7 @@ Requests:
 * `panicked`                            → `true` if any configuration of the frontier has panicked
 * `pinit …` / `pop <observed> <macro…>` → the same protocol for the composed model (`DrvSys.lean`)
 * `late <sync> <uo> <bp> <pre> <del|cancel> <observed>` → acceptor of the late-subscription model (`DrvLate.lean`)
+* `window <locked> <uo> <bp> <pre> <observed>` → acceptor of the seed-and-register window model (`DrvWindow.lean`)
 -/
 def handleS (st : DState) (toks : List String) : DState × String :=
   match toks with
@@ -217,6 +219,7 @@ def handleS (st : DState) (toks : List String) : DState × String :=
     let (fr, ans) := sHandle st.sfrontier observed mac
     ({ st with sfrontier := fr }, ans)
   | "late" :: rest => (st, handleLate rest)
+  | "window" :: rest => (st, handleWindow rest)
   | _ => (st, "!bad-op")
 
 end ScVerif.C10
